@@ -4,6 +4,7 @@ import (
 	"fmt"
 	"os"
 	"strings"
+	"time"
 
 	"github.com/whatap/golib/config/conffile"
 	"verif/harness/vh"
@@ -38,6 +39,39 @@ func (h *harness) knownReplays() {
 		still := !oc.OK() || err != nil || len(after) != 3 || after["big"] != long
 		h.rep.KnownReplay("writeback:long-line", still,
 			fmt.Sprintf("file a=1 / big=<5000 characters without '='> / z=2, SetValues{a:3}: the keys afterwards are %q (expected a, big, z)", keys))
+		h.rep.Count("known-replay")
+	}
+	// two contents of the same length written with the same modification time: no stat-based watcher can
+	// tell them apart (file systems with coarse timestamps make this happen for edits within one tick)
+	{
+		dir, path := h.newDir()
+		t := time.Unix(1_700_000_000, 0)
+		writeFile(path, "k=2\n")
+		os.Chtimes(path, t, t)
+		ce := newCfg(dir)
+		writeFile(path, "k=3\n")
+		os.Chtimes(path, t, t)
+		ce.c.ReloadNowForVerif()
+		got := ce.c.GetValue("k")
+		ce.c.Destroy()
+		h.rep.KnownReplay("reload:same-stamp-edit", got != "3",
+			fmt.Sprintf("file k=2 loaded, then rewritten as k=3 with the same mtime (1700000000.000000000) and the same size, reload: k reads %q", got))
+		h.rep.Count("known-replay")
+	}
+	// key=value lines without '=' (':' or blank separator): the line is copied, the key appended again;
+	// deleting such a key does not delete it
+	{
+		dir, path := h.newDir()
+		writeFile(path, "k: v\n")
+		ce := newCfg(dir)
+		kvs := map[string]string{"k": ""}
+		oc := vh.Guard(func() { ce.c.SetValues(&kvs) })
+		ce.c.Destroy()
+		nb, _ := os.ReadFile(path)
+		after, _, err := libRead(string(nb))
+		_, still := after["k"]
+		h.rep.KnownReplay("writeback:line-shape", !oc.OK() || err != nil || still,
+			fmt.Sprintf("file `k: v`, SetValues{k:\"\"} (delete): the file afterwards is %q, k reads %q", string(nb), after["k"]))
 		h.rep.Count("known-replay")
 	}
 	for _, w := range wits {
